@@ -797,10 +797,10 @@ def selftest():
 
 
 SUBS = [
-    Sub("trapezoid", trapezoid_strategy, run_trapezoid, dict(quick=12800, thorough=160000),
-        budget_s=dict(quick=25, thorough=240)),
-    Sub("highorder", highorder_strategy, run_highorder, dict(quick=9600, thorough=120000),
-        budget_s=dict(quick=25, thorough=240), fixed_cases=highorder_fixed),
+    Sub("trapezoid", trapezoid_strategy, run_trapezoid, dict(quick=9600, thorough=160000),
+        budget_s=dict(quick=17, thorough=170)),
+    Sub("highorder", highorder_strategy, run_highorder, dict(quick=6400, thorough=120000),
+        budget_s=dict(quick=17, thorough=170), fixed_cases=highorder_fixed),
     Sub("hierarchical", hierarchical_strategy, run_hierarchical, dict(quick=4800, thorough=48000),
-        budget_s=dict(quick=25, thorough=300)),
+        budget_s=dict(quick=18, thorough=200)),
 ]
